@@ -165,10 +165,14 @@ func Solve(file string, timeout int, quickFirst bool) solveOut {
 	}
 	var last solveOut
 	var outs []string
+	nerr := 0
 	for range solvers {
 		r := <-ch
 		if r.answer == "sat" || r.answer == "unsat" {
 			return r
+		}
+		if r.answer == "error" && !strings.HasPrefix(r.solver, "cvc5") {
+			nerr++
 		}
 		outs = append(outs, r.solver+": "+strings.TrimSpace(strings.SplitN(r.out, "\n", 2)[0]))
 		if r.dur > last.dur {
@@ -176,6 +180,9 @@ func Solve(file string, timeout int, quickFirst bool) solveOut {
 		}
 	}
 	last.answer = "unknown"
+	if nerr > 0 {
+		last.answer = "error"
+	}
 	last.solver = "all"
 	last.out = strings.Join(outs, "; ")
 	return last
@@ -237,6 +244,9 @@ func Discharge(em *Emitter, obls []*Obligation, dir string, timeout int, workers
 						o.Output = m.out
 					}
 				}
+			case r.answer == "error":
+				o.Verdict = "SOLVER-ERROR"
+				o.Output = r.out
 			default:
 				o.Verdict = "UNDECIDED"
 				o.Output = r.out
